@@ -23,6 +23,7 @@ def world_fn(existing):
         w.rc('VCPU')
         w.project('proj')
         w.user('user')
+        w.project('proj2')
         w.provider(1, generation=0)
         w.provider(2, generation=0)
         for p in (1, 2):
@@ -45,13 +46,14 @@ def cgen_of(ctx, name, mode):
     return ctx.int(name)
 
 
-def put(n, target, mode, version='1.36'):
-    name = 'put%d' % n
+def put(n, target, mode, version='1.36', project='proj', user='user'):
+    name = 'put%d' % n if project == 'proj' and user == 'user' else \
+        'put%d(%s,%s)' % (n, project, user)
 
     def fn(ctx, w):
         body = {'allocations': {U(target): {'resources': {
             'VCPU': ctx.int('amt%d' % n, 1)}}},
-            'project_id': 'proj', 'user_id': 'user',
+            'project_id': project, 'user_id': user,
             'consumer_generation': cgen_of(ctx, 'g%d' % n, mode)}
         return app.call('PUT', '/allocations/' + CONS(1), body,
                         version=version)
@@ -217,6 +219,8 @@ def families(tier):
                     [put(1, 1, 'int'), put(2, 2, 'int')]),
         make_family('existing/put_empty+put', True,
                     [put_empty(1, 'int'), put(2, 2, 'int')]),
+        make_family('existing/put(newproj)+put', True,
+                    [put(1, 1, 'int', project='proj2'), put(2, 2, 'int')]),
         # a deadlock (the database rolls the transaction back) at a
         # statement of one writer, retried, while the other writer commits
         make_family('existing/put+put/deadlock+rollback', True,
